@@ -28,15 +28,16 @@ def run(ctx, replay):
         for mm in re.finditer(r'<<"SCN", "((?:[^"\\]|\\.)*)">>', out):
             pairs.append(json.loads(vlib.tla_unescape(mm.group(1))))
         col = [p for p in pairs if p["expect"] == "collide"]
-        dis = [p for p in pairs if p["expect"] == "distinct"]
+        prot = [p for p in pairs if p["class"] == "JsonQuotingSeparates"]
+        dis = [p for p in pairs if p["expect"] == "distinct" and p["class"] != "JsonQuotingSeparates"]
         import random
         rnd = random.Random(ctx.seed)
         if quick:
             col = rnd.sample(col, min(len(col), 600))
             dis = rnd.sample(dis, min(len(dis), 1500))
-        scen = col + dis
-        scen.append({"oracle": {"kind": "node", "id": "ab", "room": "aa", "c": "a", "m": "b", "ent": "ab", "bin": "a"}})
-        scen.append({"oracle": {"kind": "node", "id": "aa", "room": "-", "c": "b", "m": "b", "ent": "a", "bin": "-"}})
+        scen = col + dis + prot
+        scen.append({"oracle": {"kind": "node", "id": "ab", "room": "aa", "c": "a", "m": "b", "ent": "ab", "json": "-", "bin": "a"}})
+        scen.append({"oracle": {"kind": "node", "id": "aa", "room": "-", "c": "b", "m": "b", "ent": "a", "json": "-", "bin": "-"}})
         for i, sc in enumerate(scen):
             sc["sid"] = i + 1
     sp = ctx.write_scenarios(scen)
